@@ -59,7 +59,7 @@ func mutate(r *kit.Rand, bz []byte) []byte {
 	if len(out) == 0 {
 		return r.Bytes(1 + r.Intn(4))
 	}
-	switch r.Intn(14) {
+	switch r.Intn(16) {
 	case 0: // truncate
 		return out[:r.Intn(len(out))]
 	case 1: // flip one bit
@@ -112,6 +112,10 @@ func mutate(r *kit.Rand, bz []byte) []byte {
 	case 12: // append a whole unknown field
 		out = append(out, byte((15+r.Intn(3))<<3|kit.Pick(r, []int{0, 1, 2, 5})))
 		out = append(out, r.Bytes(r.Intn(9))...)
+	case 13, 14: // pad one or two varints (non-canonical length prefixes / keys / values)
+		for j := 0; j < 1+r.Intn(2); j++ {
+			out = padAt(out, r.Intn(len(out)))
+		}
 	default: // two independent byte edits
 		out[r.Intn(len(out))] = byte(r.U64())
 		out[r.Intn(len(out))] = byte(r.U64())
@@ -130,4 +134,14 @@ func garbage(r *kit.Rand) []byte {
 	default:
 		return r.Bytes(1 + r.Intn(24))
 	}
+}
+
+// padAt turns the byte at i (if it is a final varint byte) into a padded two-byte form.
+func padAt(bz []byte, i int) []byte {
+	if bz[i] >= 0x80 {
+		return bz
+	}
+	out := append([]byte(nil), bz[:i]...)
+	out = append(out, bz[i]|0x80, 0x00)
+	return append(out, bz[i+1:]...)
 }
